@@ -13,9 +13,9 @@ from .c20_gen import HarnessGen, TSHORT
 PROP = "C20"
 SIMDIR = os.path.dirname(os.path.abspath(__file__))
 EXCLUDE_FILE = os.path.join(SIMDIR, "c20_exclude.json")
-# UBSan's alignment and null checks (one per member access) cost a third of the compile time and add nothing here: a null
-# or misaligned access still dies under ASan.  vptr checks (bad downcasts on the polymorphic models) are cheap and stay on.
-SAN_FLAGS = ["-O0", "-fsanitize=address,undefined", "-fno-sanitize=alignment,null", "-fno-sanitize-recover=all", "-D_GLIBCXX_DEBUG"]
+# UBSan's null check (one per member access) costs a third of the compile time and adds nothing here: a null access still
+# dies under ASan.  alignment (+14 %) and vptr (free) stay on: a misaligned load is silent on x86 under every other tool.
+SAN_FLAGS = ["-O0", "-fsanitize=address,undefined", "-fno-sanitize=null", "-fno-sanitize-recover=all", "-D_GLIBCXX_DEBUG"]
 PLAIN_FLAGS = ["-O0", "-g1"]
 TSAN_FLAGS = ["-O1", "-g1", "-fsanitize=thread", "-DVRT_CONCURRENT"]
 WORKER_TIMEOUT = 1800
@@ -181,7 +181,7 @@ def classify_death(rc, stderr):
     m = re.search(r"ERROR: AddressSanitizer: ([\w-]+)", s)
     if m:
         return "asan:" + m.group(1), s
-    m = re.search(r"WARNING: ThreadSanitizer: ([\w -]+?) \(pid", stderr)
+    m = re.search(r"(?:WARNING|ERROR): ThreadSanitizer: ([\w -]+?)(?: \(pid| on |\n)", stderr)
     if m:
         loc = re.search(r"Location is ([^\n]{0,160})", stderr)
         fn = re.findall(r"#\d+ (PhQ::[^\n(<]{0,80})", stderr)
@@ -842,9 +842,14 @@ def main(tier, seed):
 
     # ---- violations
     infra = [e for (b, ops_, e) in all_events if e["kind"] in ("infra", "unknown-op")]
-    if infra:
+    attributable = [1 for (b, ops_, e) in all_events if e["kind"] not in ("infra", "unknown-op")]
+    if infra and not attributable:
         log("INFRASTRUCTURE: %d worker problems; first: %s" % (len(infra), infra[0]))
         return 2
+    if infra:
+        # a worker that dies outside any op (typically heap corruption that the build it runs under cannot see, surfacing
+        # at exit) proves nothing by itself; the attributable violations below are reported, these are only mentioned
+        log("note: %d worker deaths could not be attributed to an op (first: %s)" % (len(infra), str(infra[0])[:300]))
     groups = {}
     for (b, ops_, e) in all_events:
         if ops_ is None or not (0 <= e["op"] < len(ops_)) or "name" not in ops_[e["op"]]:
@@ -926,7 +931,7 @@ def main(tier, seed):
         "determinism_sample": {"plans": len(det_runs), "worker_assignments": [1, min(16, common.NCPU)], "identical": True},
         "violation_groups": len(groups), "known_findings_matched": len(known_lines),
         "components": {"real": ["all PhQ headers from /repo/include (working tree)", "libstdc++ (strings, streams, containers, stod family) in debug mode",
-                                "ASan", "UBSan (without alignment/null)", "valgrind memcheck on a plain -O0 build", "ThreadSanitizer on a third build (two real threads inside the library at once)"],
+                                "ASan", "UBSan (all of -fsanitize=undefined except the null check)", "valgrind memcheck on a plain -O0 build", "ThreadSanitizer on a third build (two real threads inside the library at once)"],
                        "simulated": ["allocator's decision to fail (replaced global operator new)", "stream sink (std::streambuf with byte budget, 3 failure modes, preset state bits/flags, null buffer)"],
                        "absent_no_seam": ["clock", "network", "disk", "threads"]},
         "build_seconds": {"sanitizer": round(hs.build_s, 1), "plain": round(hp.build_s, 1)},
